@@ -165,3 +165,39 @@ Check c07_crash_inside_batch_accepted_after_restarts : forall (c : Cfg) (m : mod
   c07_ok (stream_of s (t_id t)) es (map out_of (stream_of (batch_crash c s t es j) (t_id t))) = true /\
   forall t0, t0 <> t_id t -> stream_of (batch_crash c s t es j) t0 = stream_of s t0.
 Print Assumptions c07_crash_inside_batch_accepted_after_restarts.
+
+(* C07 in ONE statement at model level: every crash image (crash_image: nothing happened / everything
+   happened / the first j entry writes of an admissible batch happened) of EVERY operation after ANY
+   history with restarts outside block-id drift, any mode, any backend: every topic holds exactly its
+   acknowledged stream followed by a prefix of what the operation had in flight for it.
+   (The I/O events an operation performs besides its entry writes and the index rename — sealing
+   flushes, block allocation, file creation — are collapsed by the model; that they change nothing
+   recovery reads is what the crash-point enumeration on the real crate decides per run.) *)
+Theorem c07_every_crash_image_outside_known : forall (c : Cfg) (m : mode) (be : backend) (ops : list op) (o : op), cfg_ok c ->
+  outside_known (env_of c m be) init ops = true ->
+  N.of_nat (length (offered_all ops)) + N.of_nat (length (offered o)) <= u64_max ->
+  sum_len (offered_all ops) + sum_len (offered o) <= u64_max ->
+  let v := env_of c m be in
+  let s := exec v init ops in
+  forall image, crash_image c v s o image ->
+  forall t0, exists k, (k <= length (inflight o t0))%nat /\
+                       stream (get_ts image t0) = stream (get_ts s t0) ++ firstn k (inflight o t0).
+Proof. exact c07_every_crash_image. Qed.
+
+Example c07_crash_images_exist :
+  let v := env_of small_cfg Strict Fd in
+  let s := exec v init [OAppend tq0 (eq0_ 0 3000); OReopen] in
+  crash_image small_cfg v s (OBatch tq0 [eq0_ 1 500; eq0_ 2 3000]) (batch_crash small_cfg s tq0 [eq0_ 1 500; eq0_ 2 3000] 1) /\
+  crash_image small_cfg v s (OAppend tq0 (eq0_ 1 10)) (reopen small_cfg (fst (step v s (OAppend tq0 (eq0_ 1 10))))).
+Proof. split; [apply CI_batch; split; [reflexivity|repeat constructor; vm_compute; discriminate]|apply CI_after; exact I]. Qed.
+
+Check c07_every_crash_image_outside_known : forall (c : Cfg) (m : mode) (be : backend) (ops : list op) (o : op), cfg_ok c ->
+  outside_known (env_of c m be) init ops = true ->
+  N.of_nat (length (offered_all ops)) + N.of_nat (length (offered o)) <= u64_max ->
+  sum_len (offered_all ops) + sum_len (offered o) <= u64_max ->
+  let v := env_of c m be in
+  let s := exec v init ops in
+  forall image, crash_image c v s o image ->
+  forall t0, exists k, (k <= length (inflight o t0))%nat /\
+                       stream (get_ts image t0) = stream (get_ts s t0) ++ firstn k (inflight o t0).
+Print Assumptions c07_every_crash_image_outside_known.
